@@ -52,3 +52,27 @@ func TestRWMutexWriterExcludesNewReaders(t *testing.T) {
 		t.Fatalf("plain reader/writer deadlocked in %d of %d schedules", d, n)
 	}
 }
+
+func TestUnlockOfUnlockedIsReported(t *testing.T) {
+	for _, which := range []string{"mutex", "rw", "r"} {
+		var mu Mutex
+		var rw RWMutex
+		res := simrt.Exec(simrt.Config{Tape: simrt.NewTape(1)}, func() {
+			switch which {
+			case "mutex":
+				mu.Lock()
+				mu.Unlock()
+				mu.Unlock()
+			case "rw":
+				rw.Unlock()
+			case "r":
+				rw.RLock()
+				rw.RUnlock()
+				rw.RUnlock()
+			}
+		})
+		if len(res.Panics) != 1 {
+			t.Fatalf("%s: unlock of an unlocked lock not reported: %+v", which, res)
+		}
+	}
+}
